@@ -302,6 +302,9 @@ bloom_filter_alloc<A> bloom_filter_alloc<A>::deserialize(std::istream& is, const
   const uint64_t num_bits_set = read<uint64_t>(is);
   if (!is.good()) throw std::runtime_error("error reading from std::istream");
   const bool is_dirty = (num_bits_set == DIRTY_BITS_VALUE);
+  if (num_longs == 0) {
+    throw std::invalid_argument("Possible corruption: non-empty filter with a bit array of length zero");
+  }
 
   // allocate memory
   const uint64_t num_bytes = num_longs << 3;
@@ -385,6 +388,9 @@ bloom_filter_alloc<A> bloom_filter_alloc<A>::internal_deserialize_or_wrap(void* 
   uint64_t num_bits_set;
   ptr += copy_from_mem(ptr, num_bits_set);
   const bool is_dirty = (num_bits_set == DIRTY_BITS_VALUE);
+  if (num_longs == 0) {
+    throw std::invalid_argument("Possible corruption: non-empty filter with a bit array of length zero");
+  }
 
   // the bit array must lie within the given memory, whether it is copied or wrapped
   const uint64_t num_bytes = num_longs << 3;
